@@ -181,9 +181,14 @@ def _run_unit(args):
 def extract(units, variant="default", jobs=None):
     """run the extractor over the given absolute unit paths; returns {unit: facts-file}"""
     if not os.path.isfile(EXTRACTOR):
-        r = subprocess.run(["make", "-C", os.path.join(VERIF, "tools")], stdout=subprocess.PIPE, stderr=subprocess.STDOUT, text=True)
-        if r.returncode != 0:
-            raise AnalysisBroken("cannot build extractor:\n" + r.stdout[-2000:])
+        import fcntl
+        os.makedirs(WORK, exist_ok=True)
+        with open(os.path.join(WORK, "extractor.lock"), "w") as lk:      # checks started in parallel build it once
+            fcntl.flock(lk, fcntl.LOCK_EX)
+            if not os.path.isfile(EXTRACTOR):
+                r = subprocess.run(["make", "-C", os.path.join(VERIF, "tools")], stdout=subprocess.PIPE, stderr=subprocess.STDOUT, text=True)
+                if r.returncode != 0:
+                    raise AnalysisBroken("cannot build extractor:\n" + r.stdout[-2000:])
     make_gen(variant)
     for u in units:
         if not os.path.isfile(u):
